@@ -411,3 +411,21 @@ package core
 //@   invariant rest:      forall i int :: rangeindex < i && i < len(freeNodes) ==> pendingNode(u, freeNodes[i])
 //@   invariant distinct:  forall i, j int :: 0 <= i && i < j && j < len(freeNodes) ==> freeNodes[i] != freeNodes[j]
 //@   invariant txempty:   tx != nil && toplevel(tx) && txInv(tx) && (forall k string :: has(tx.store, k) ==> len(tx.store[k].l.elems) == 0) && forall id string :: has(u.txStore.store, id) ==> u.txStore.store[id] != tx
+
+// ---- reopening (Load): the counter ends at or above every version that is kept ----
+//@ iface fileRepository.GetAll
+//@   params ctx
+//@ func (*UseCase).Load
+//@   requires inv:     ucInv(u) && !has(u.txStore.store, model.MainTxId)
+//@   modifies *
+// the value handed to sequence.Set is at or above the sequence number of every version kept as the newest of
+// its key; sequence.Set raises the counter to it (its own contract), so whatever is written after the reopen
+// draws a larger number and wins, now and after every later reopen.  (Stated on maxSeq, not on the counter:
+// storeToTx's precondition, which is not attempted here, mentions the counter.)
+//@   exitassert maxseq:  result1 == nil ==> forall k string :: has(mainFiles, k) ==> mainFiles[k].Seq <= maxSeq
+//@ loop (*UseCase).Load#1
+//@   invariant idx:     -1 <= rangeindex && rangeindex + 1 <= len(files)
+//@   decreases len(files) - rangeindex
+//@ loop (*UseCase).Load#2
+//@   invariant range:   mainFiles == $range
+//@   invariant maxseen: forall k string :: seen(k) ==> has(mainFiles, k) && mainFiles[k].Seq <= maxSeq
